@@ -43,11 +43,39 @@ type Server struct {
 	// fault plan
 	FailAt  int // fail the k-th application command (1-based; 0 = none)
 	CrashAt int // the k-th application command is the last one executed; then the server dies
+	// Plan is a sequence of faults, each striking the After-th application command counted from the
+	// previous strike (for crashes: from the restart after it); set with SetPlan.
+	Plan     []Fault
+	planNext int // absolute number of the command the head of Plan strikes (0 = not armed)
+	Struck   int // faults of the plan that struck so far
 	// Gate, if non-nil, is called on arrival of every application command (before it executes),
 	// outside the server lock; the schedule explorer parks the calling goroutine there.
 	Gate func(label string)
 	// OnCrash, if non-nil, is called when the server dies.
 	OnCrash func()
+}
+
+// Fault is one step of a fault plan. Kind: "fail" (the command is answered with an error and not
+// executed), "crash" (the command is executed, its reply is lost and the server dies), "crashb"
+// (the server dies before executing the command).
+type Fault struct {
+	Kind  string `json:"kind"`
+	After int    `json:"after"`
+}
+
+// SetPlan arms a fault plan relative to the commands executed so far.
+func (s *Server) SetPlan(plan []Fault) {
+	s.mu.Lock()
+	s.Plan = append([]Fault(nil), plan...)
+	s.armLocked()
+	s.mu.Unlock()
+}
+
+func (s *Server) armLocked() {
+	s.planNext = 0
+	if len(s.Plan) > 0 {
+		s.planNext = s.ncmd + s.Plan[0].After
+	}
 }
 
 // New creates an empty server.
@@ -75,6 +103,7 @@ func (s *Server) Restart() {
 	s.dead = false
 	s.CrashAt = 0
 	s.FailAt = 0
+	s.armLocked()
 	s.mu.Unlock()
 }
 
@@ -303,9 +332,29 @@ func (s *Server) handleMsg(reqID uint32, body []byte) ([]byte, bool) {
 		s.mu.Unlock()
 		return nil, false
 	}
+	if s.planNext == s.ncmd+1 && s.Plan[0].Kind == "crashb" {
+		s.Plan, s.planNext = s.Plan[1:], 0
+		s.Struck++
+		s.mu.Unlock()
+		return nil, true
+	}
 	s.ncmd++
 	n := s.ncmd
 	s.CmdLog = append(s.CmdLog, label)
+	if s.planNext == n {
+		f := s.Plan[0]
+		s.Plan = s.Plan[1:]
+		s.Struck++
+		if f.Kind == "fail" {
+			s.armLocked()
+			s.mu.Unlock()
+			return msgReply(reqID, errDoc(8000, "AtlasError", fmt.Sprintf("mongofake: injected failure of command %d (%s)", n, label))), false
+		}
+		s.planNext = 0
+		s.exec(n, name, coll, cmd, seqs)
+		s.mu.Unlock()
+		return nil, true
+	}
 	if s.FailAt == n {
 		s.mu.Unlock()
 		return msgReply(reqID, errDoc(8000, "AtlasError", fmt.Sprintf("mongofake: injected failure of command %d (%s)", n, label))), false
